@@ -385,10 +385,11 @@ class StorageFrontend:
         if not (fuzzy_for or fuzzy_for_options):
             return lineage == desired_lineage
         args = [fuzzy_for, fuzzy_for_options]
-        # Stored lineages went through json: compare lists and tuples by content
-        return strax.hashablize(self._filter_lineage(lineage, *args)) == strax.hashablize(
-            self._filter_lineage(desired_lineage, *args)
-        )
+        # Compare the way storage keys are made (stored lineages went through json:
+        # lists equal tuples, but 1 is not True)
+        return strax.deterministic_hash(
+            self._filter_lineage(lineage, *args)
+        ) == strax.deterministic_hash(self._filter_lineage(desired_lineage, *args))
 
     @staticmethod
     def _filter_lineage(lineage, fuzzy_for, fuzzy_for_options):
